@@ -47,6 +47,11 @@ const SHAPES: &[(&str, &[&str])] = &[
     ("wug", &["{NUMBER:a} wug {NUMBER:b}", "{NUMBER:b} wug {NUMBER:a}"]),
     // a keyword with cased non-ASCII letters: lines may spell it in another case
     ("çörk", &["çörk {NUMBER:n}"]),
+    // fields of other types; the operand may also be a VARIABLE holding a value of that type
+    ("plonk", &["plonk {DURATION:d}"]),
+    // restricted to one user family, spelled in another case than the family was registered with
+    ("dibs", &["{DYNAMIC_TYPE:q:FamX} dibs"]),
+    ("dday", &["{DATE:d} dday"]),
 ];
 
 fn shape_of(spec: &RuleSpec) -> Option<usize> {
@@ -64,6 +69,7 @@ fn gen_rule(r: &mut Rng, id: u32, rated: &[String]) -> RuleSpec {
         4 => if r.chance(1, 2) { ResultSpec::DurationSecs(60 * (1 + r.below(1000)) as i64) } else { ResultSpec::Percent((1 + r.below(99)) as f64) },
         6 => ResultSpec::NumberTimes { field: if r.chance(1, 2) { "a".into() } else { "b".into() }, k: (2 + r.below(7)) as f64 },
         7 => if r.chance(1, 2) { ResultSpec::NumberTimes { field: "n".into(), k: (2 + r.below(7)) as f64 } } else { ResultSpec::Number((100 + r.below(900)) as f64) },
+        8 | 9 | 10 => ResultSpec::Number((100 + r.below(900)) as f64),
         _ => ResultSpec::Money { amount: (1 + r.below(500)) as f64, code: r.pick(rated).clone() },
     };
     RuleSpec { id, name: format!("rule{}", r.below(5)), patterns: pats.iter().map(|s| s.to_string()).collect(), result, decline_num: if k == 6 { *r.pick(&[1u32, 2, 2, 3]) } else { *r.pick(&[0u32, 0, 1, 2, 4]) }, decline_den: 4, unwind_den: 0 }
@@ -92,6 +98,9 @@ fn gen_probe_lc(r: &mut Rng, k: usize) -> (String, bool) {
         4 => match r.below(3) { 0 => (format!("glorp {}% glorp", n), true), 1 => (format!("{}% glorp glorp", n), true), _ => (format!("glorp {} glorp", n), false) },
         6 => match r.below(4) { 0 => (format!("{} wug apple", n), false), _ => (format!("{} wug {}", n, m), true) },
         7 => match r.below(4) { 0 => (format!("çörk {}%", n), false), _ => (format!("çörk {}", n), true) },
+        8 => match r.below(4) { 0 => (format!("plonk {}", n), false), 1 => (format!("plonk {} minutes", 1 + n), true), _ => (format!("plonk {} hours", 1 + n), true) },
+        9 => match r.below(5) { 0 => (format!("{} km dibs", m), false), 1 => (format!("{} {} dibs", m, unit_name("famy", r.usize(5))), false), _ => (format!("{} {} dibs", m, unit_name("famx", r.usize(5))), true) },
+        10 => match r.below(4) { 0 => (format!("{} dday", n), false), _ => (format!("{}/{}/{} dday", 1 + r.below(28), 1 + r.below(12), 1950 + r.below(150)), true) },
         _ => match r.below(3) { 0 | 1 => (format!("{} snarf", n), true), _ => (format!("{} snarfx", n), false) },
     }
 }
@@ -143,6 +152,16 @@ fn aimed_compound(r: &mut Rng, live: &[RuleSpec], salt: u64) -> Option<String> {
         if !va[0] && va.iter().filter(|x| **x).count() == 1 && vb[0] && vb.iter().filter(|x| **x).count() == 1 {
             return Some(format!("{} + {}", a, b));
         }
+    }
+    None
+}
+
+/// for probes of the typed-field shapes: (the operand as written, the line with `vv` in its place)
+fn split_operand(line: &str) -> Option<(String, String)> {
+    let lower = line.to_lowercase();
+    if let Some(rest) = lower.strip_prefix("plonk ") { if rest.contains(' ') { return Some((line["plonk ".len()..].to_string(), format!("{} vv", &line[.."plonk".len()]))); } }
+    for kw in ["dibs", "dday"] {
+        if let Some(op) = lower.strip_suffix(&format!(" {}", kw)) { let n = op.len(); return Some((line[..n].to_string(), format!("vv {}", &line[n + 1..]))); }
     }
     None
 }
@@ -330,6 +349,14 @@ impl Check for C18 {
                     let k = if !shapes_seen.is_empty() && r.chance(2, 3) { *r.pick(&shapes_seen) } else { r.usize(SHAPES.len()) };
                     gen_probe(&mut r, k).0
                 };
+                // the operand through a variable: "vv = 2 hours" / "plonk vv"
+                if let Some((lit, rest)) = split_operand(&line) {
+                    if r.chance(1, 3) {
+                        let text = TextSpec { lines: vec![Line::Raw(format!("vv = {}", lit)), Line::Raw(rest)], crlf: vec![false, false], trailing_nl: false };
+                        events.push(Event { actor: 0, op: Op::Execute { lang: lang.into(), text }, clock });
+                        continue;
+                    }
+                }
                 events.push(Event { actor: 0, op: Op::Execute { lang: lang.into(), text: TextSpec::single(Line::Raw(line)) }, clock });
             } else if cp_left > 0 && step > 3 {
                 cp_left -= 1;
@@ -390,9 +417,13 @@ impl Check for C18 {
                     }
                 }
                 Op::Execute { lang, text } => {
-                    let line = match text.lines.first() { Some(Line::Raw(s)) => s.clone(), _ => continue };
+                    let first = match text.lines.first() { Some(Line::Raw(s)) => s.clone(), _ => continue };
+                    // operand through a variable: the text is "vv = <operand>" / "<line with vv>"
+                    let via_var: Option<String> = match (first.strip_prefix("vv = "), text.lines.get(1)) { (Some(lit), Some(Line::Raw(_))) => Some(lit.to_string()), _ => None };
+                    let line = match (&via_var, text.lines.get(1)) { (Some(_), Some(Line::Raw(s))) => s.clone(), _ => first.clone() };
+                    let full = if via_var.is_some() { format!("{}\n{}", first, line) } else { line.clone() };
                     let calls_before = l.log.borrow().len();
-                    let (o, _) = l.execute(lang, &line, &ev.clock);
+                    let (o, _) = l.execute(lang, &full, &ev.clock);
                     rep.evaluations += 1;
                     rep.mix_obs(&o.short());
                     let records: Vec<_> = l.log.borrow()[calls_before..].to_vec();
@@ -401,7 +432,8 @@ impl Check for C18 {
                         rep.violate("O-effect", format!("evaluation-{}", pi.key()), ei, format!("probe {:?} panicked: {} at {} in {}", line, pi.msg, pi.loc, pi.func));
                         continue;
                     }
-                    let slot = match o.lines().and_then(|l| l.first()) { Some(s) => s.slot.clone(), None => continue };
+                    let slot = match o.lines().and_then(|l| l.last()) { Some(s) => s.slot.clone(), None => continue };
+                    if via_var.is_some() { rep.count("probe.operand_through_variable"); }
                     // family conversion probe?
                     if let Some((v, fam, s, target)) = parse_conv(&line) {
                         // the conversion connectives (to/in/as/into) exist in the English tables only
@@ -459,17 +491,21 @@ impl Check for C18 {
                     // rule probe: expected call sequence
                     let lower = line.to_lowercase();
                     if lower != line { rep.count("probe.keyword_in_other_case"); }
-                    let orig_line = line.clone();
-                    let line = lower;
+                    let orig_line = full.clone();
+                    // which pattern matches is decided by the operand's value: look at the line with the operand in place
+                    let line = match &via_var { Some(lit) => lower.replacen("vv", &lit.to_lowercase(), 1), None => lower };
                     let kw = SHAPES.iter().position(|(k, _)| line.split(|c: char| !c.is_alphabetic()).any(|w| w == *k));
                     let live: Vec<RuleSpec> = match kw { Some(k) => l.cfg.rules.get(lang).map(|v| v.iter().filter(|s| shape_of(s) == Some(k)).cloned().collect()).unwrap_or_default(), None => vec![] };
-                    let fields: Option<Vec<Vec<(String, Val)>>> = kw.and_then(|k| expected_fields(k, &line, &l)).map(|f| {
+                    // the duration words of the probes are English: in another language "40 minutes" is no duration
+                    let fields: Option<Vec<Vec<(String, Val)>>> = kw.filter(|k| !(*k == 8 && lang != "en")).and_then(|k| expected_fields(k, &line, &l)).map(|f| {
+                        // through a variable the rule receives the variable itself, not its value
+                        let f: Vec<(String, Val)> = if via_var.is_some() { f.into_iter().map(|(n, _)| (n, Val::Other(format!("{:?}", "VARIABLE")))).collect() } else { f };
                         // shape "wug": the second pattern binds the same two numbers the other way round
                         if kw == Some(6) { let swapped = vec![(f[0].0.clone(), f[1].1.clone()), (f[1].0.clone(), f[0].1.clone())]; vec![f, swapped] } else { vec![f] }
                     });
                     rep.judged += 1;
                     let (po, _) = p.execute(lang, &orig_line, &ev.clock);
-                    let pslot = po.lines().and_then(|l| l.first()).map(|s| s.slot.clone());
+                    let pslot = po.lines().and_then(|l| l.last()).map(|s| s.slot.clone());
                     match fields {
                         None => {
                             // near miss: nothing may be called, the line is as without rules
@@ -489,12 +525,17 @@ impl Check for C18 {
                             'rules: for spec in live.iter() {
                                 for (f, d) in digests.iter() {
                                     let dec = crate::rules::decide(spec, trace.salt, *d);
+                                    // the same declined question once (see the observed side below)
+                                    if dec == Decision::Decline && exp_calls.iter().zip(exp_fields.iter()).any(|(c, ef)| *c == (spec.id, dec) && ef == f) { continue; }
                                     exp_calls.push((spec.id, dec));
                                     exp_fields.push(f.clone());
                                     if dec == Decision::Accept { accepted = Some((spec.clone(), f.clone())); break 'rules; }
                                 }
                             }
                             if digests.len() > 1 && exp_calls.len() > 1 && accepted.is_some() { rep.count("probe.second_binding_reached"); }
+                            // a declined question may be asked again on a later pass of the rewrite loop (another rule
+                            // rewrote something in between): repetitions of the same declined question carry no information
+                            let records: Vec<crate::rules::CallRecord> = { let mut v: Vec<crate::rules::CallRecord> = Vec::new(); for r in records.iter() { if r.decision == Decision::Decline && v.iter().any(|x| x == r) { continue; } v.push(r.clone()); } v };
                             let got_calls: Vec<(u32, Decision)> = records.iter().map(|r| (r.rule_id, r.decision)).collect();
                             // after an accept the rewrite loop runs again and may call later rules on the
                             // rewritten line; only the prefix up to the first accept is specified
@@ -622,7 +663,19 @@ fn parse_conv(line: &str) -> Option<(f64, String, usize, Target)> {
 }
 
 /// the fields a rule of shape k must receive for this line (None = the line does not match the shape)
-fn expected_fields(k: usize, line: &str, _l: &World) -> Option<Vec<(String, Val)>> { expected_fields_plain(k, line) }
+fn expected_fields(k: usize, line: &str, l: &World) -> Option<Vec<(String, Val)>> {
+    if k == 9 {
+        // "<n> famx<i> dibs": matches when the quantity belongs to the user family famx (an item that exists)
+        let words: Vec<&str> = line.split(' ').collect();
+        if words.len() != 3 || words[2] != "dibs" || !words[0].chars().all(|c| c.is_ascii_digit()) || words[0].is_empty() { return None; }
+        let rest = words[1].strip_prefix("famx")?;
+        if rest.len() != 1 { return None; }
+        let idx = (rest.as_bytes()[0] as i32 - b'a' as i32) as usize;
+        let item = l.cfg.families.get("famx")?.get(&idx)?;
+        return Some(vec![("q".to_string(), Val::Unit { v: F(words[0].parse().ok()?), group: "famx".into(), index: idx, unit: item.names.first().cloned().unwrap_or_default() })]);
+    }
+    expected_fields_plain(k, line)
+}
 
 fn expected_fields_plain(k: usize, line: &str) -> Option<Vec<(String, Val)>> {
     let words: Vec<&str> = line.split(' ').collect();
@@ -651,6 +704,14 @@ fn expected_fields_plain(k: usize, line: &str) -> Option<Vec<(String, Val)>> {
         }
         6 => if words.len() == 3 && words[1] == "wug" { match (num(words[0]), num(words[2])) { (Some(a), Some(b)) => Some(vec![("a".to_string(), n(a)), ("b".to_string(), n(b))]), _ => None } } else { None },
         7 => if words.len() == 2 && words[0] == "çörk" { num(words[1]).map(|v| vec![("n".to_string(), n(v))]) } else { None },
+        8 => if words.len() == 3 && words[0] == "plonk" { let len = match words[2] { "hours" | "hour" => 3600, "minutes" | "minute" => 60, _ => return None }; num(words[1]).map(|v| vec![("d".to_string(), Val::Dur { secs: v as i64 * len, nanos: 0 })]) } else { None },
+        10 => if words.len() == 2 && words[1] == "dday" {
+            let p: Vec<&str> = words[0].split('/').collect();
+            if p.len() != 3 { return None; }
+            let (d, m, y) = (num(p[0])? as u32, num(p[1])? as u32, num(p[2])? as i64);
+            if m < 1 || m > 12 || d < 1 || d > crate::clock::days_in_month(y, m) { return None; }
+            Some(vec![("d".to_string(), Val::Date { days: crate::clock::days_from_civil(y, m, d), zone: "UTC".into(), off: 0 })])
+        } else { None },
         _ => if words.len() == 2 && words[1] == "snarf" { num(words[0]).map(|v| vec![("coin".to_string(), Val::Other("Text(snarf)".to_string())), ("n".to_string(), n(v))]) } else { None },
     }
 }
